@@ -70,13 +70,38 @@ func runC12With(t *testing.T, c simrt.Chooser, o Opts, forcedStep int, block int
 			limiterInterval = win / time.Duration(n)
 			estDur += time.Duration(s.nprobes()) * win / time.Duration(n)
 		}
+		flood := p.pct("flood", 3)
+		if flood {
+			// result flood: more positive probes than both 1000-slot result buffers plus the workers can
+			// hold while stdout is slow - workers are blocked handing over results when Ctrl-C comes
+			s.Mode, s.Entries, s.Exclude, s.FromStdin, s.Rate = "subnet", nil, nil, false, ""
+			s.Subnet = mkCIDR(ipU32("198.51.96.0"), 22)
+			s.SubnetArg = s.Subnet.String()
+			lo := 1 + p.n("floodport", 60000)
+			s.Ports = []portRange{{lo, lo + 2}}
+			s.Workers = 100
+			limiterInterval = 0
+			simrtFault(out, "result-flood")
+		}
 		workers = min(s.Workers, s.nprobes())
 		w = s.world()
+		if flood {
+			w.OutStallEvery = 1
+			outStall = p.dur("floodstall", time.Millisecond, 4*time.Millisecond)
+			w.OutStallFor = outStall.String()
+		}
 		sp := &socksPlan{salt: uint64(p.n("salt", 1<<30)), mix: []int{sbProxy, sbProxy, sbAuth, sbRefuse, sbCloseAfter, sbSilent, sbOneByte, sbBlackhole, sbFlood, sbReset}, latMax: p.dur("latmax", time.Microsecond, 300*time.Millisecond), connMax: 30 * time.Millisecond}
+		if flood {
+			sp.mix = []int{sbProxy}
+			sp.latMax, sp.connMax = 50*time.Microsecond, 50*time.Microsecond
+		}
 		w.tcp = sp.install
 		sc.App = &c16AppScenario{Spec: s, World: w}
 		estSteps = 60*s.nprobes() + 300
 		estDur += 7 * time.Second
+		if flood {
+			estDur = 800 * time.Millisecond
+		}
 	} else {
 		k := pktKnobs{
 			gen:        genKnobs{maxProbes: 120, cmds: packetCmds, allowVPN: true, allowExcl: true, chunkedPct: 8, remotePct: 50},
@@ -121,7 +146,7 @@ func runC12With(t *testing.T, c simrt.Chooser, o Opts, forcedStep int, block int
 	switch {
 	case forcedStep > 0:
 		w.SigintStep = forcedStep
-	case p.pct("attime", 35):
+	case p.pct("attime", 35) || (sc.App != nil && outStall > 0):
 		w.SigintAt = p.dur("sigat", 1, estDur+time.Millisecond).String()
 	default:
 		w.SigintStep = 1 + p.n("sigstep", estSteps)
@@ -182,7 +207,7 @@ func runC12With(t *testing.T, c simrt.Chooser, o Opts, forcedStep int, block int
 		if ps != nil {
 			bound += time.Duration(nAfter+1)*(nicStall+limiterInterval) + time.Duration(recAfter+1)*outStall
 		} else {
-			bound += time.Duration(workers+dialsAfter) * limiterInterval
+			bound += time.Duration(workers+dialsAfter)*limiterInterval + time.Duration(recAfter+1)*outStall
 			nAfter = dialsAfter - workers
 		}
 		sc.Bound = bound.String()
